@@ -224,7 +224,9 @@ def check(prop, tier, seed, focus=None, props_of_interest=None):
         cases = short + rnd.sample(rest, max(0, min(len(rest), cap - len(short))))
         sampled = True
     log(f"[{prop}] generated {total_generated} programs, replaying {len(cases)} x {len(events) if events else 'own'} events ({time.time()-t0:.0f}s)")
-    shards = max(1, min(NCPU, len(cases) // 8))
+    # one TLC run per shard: keep every trace short (TLC's trace validation slows down and its 2 GB heap fills on traces of
+    # several hundred thousand events), so big runs get more shards than cores and the pool works through them
+    shards = max(1, min(NCPU * max(1, len(cases) // 12000), len(cases) // 8))
     fpath = os.path.join(wd, "faults.ndjson")
     traces = replay(cases, events, wd, shards, extra=(["--faults", fpath] if os.path.exists(fpath) else None))
     log(f"[{prop}] replayed ({time.time()-t0:.0f}s)")
